@@ -1,7 +1,8 @@
 // env/attrmap_holder_none.cpp - N11 holder for units that never store an attribute map (and that use the
 // array-backed std::map stub, which cannot hold OSAttribute by value): storing one is a stub limit, reading yields
 // the empty map (zero-initialised static storage = an empty array map).
-#ifndef VP_NATIVE
+#include "vp.h"
+#ifndef VP_NATIVE_DYN
 #include "config.h"
 #include "OSAttribute.h"
 typedef std::map<CK_ATTRIBUTE_TYPE,OSAttribute> vp_attrmap;
